@@ -228,6 +228,15 @@ def oracle(ctx, deep=False):
             ctx.violations.append({"what": f.split(":")[0][:80], "detail": f, "input": case})
         if len(ctx.violations) > 30:
             break
+    import meanx
+    for parameter in ("analyze", "power"):
+        for _ in range(ctx.n(3, 30)):
+            seed = ctx.rng.randint(0, 10**6)
+            ctx.evaluations += 1
+            ctx.count("oracle:reused-object-history")
+            for f in meanx.reuse_history(seed, parameter)[:1]:
+                ctx.violations.append({"what": "entry depends on earlier calls on the same Experiment object", "detail": f,
+                                       "input": {"reuse_history": True, "seed": seed, "parameter": parameter}})
     for i in range(ctx.n(20, 400)):
         seed = ctx.rng.randint(0, 10**9)
         ctx.evaluations += 1
@@ -302,6 +311,10 @@ def definition_independence(seed):
 
 def replay(ctx, rp):
     case = rp["input"]
+    if case.get("reuse_history"):
+        import meanx
+        fails = meanx.reuse_history(case["seed"], case["parameter"])
+        return {"fails": bool(fails), "failures": fails}
     if "definition_seed" in case:
         fails = definition_independence(case["definition_seed"])
         return {"fails": bool(fails), "failures": fails}
